@@ -34,6 +34,22 @@ structure ClosedOriented (F : List Face) : Prop where
   rev : ∀ e ∈ allDir F, (e.2, e.1) ∈ allDir F
   noLoop : ∀ e ∈ allDir F, e.1 ≠ e.2
 
+/-- decidable form of `List.Nodup` for directed edges (structural) -/
+def nodupB : List Edge → Bool
+  | [] => true
+  | a :: l => !l.contains a && nodupB l
+
+/-- decidable form of `ClosedOriented` — the certificate the driver evaluates on the
+    implementation's own faces / simplices -/
+def closedOrientedB (F : List Face) : Bool :=
+  let D := allDir F
+  nodupB D && D.all (fun e => D.contains (e.2, e.1)) && D.all (fun e => e.1 != e.2)
+
+/-- every `G[k]` is `F[k]` or its reversal, and the lists have the same length -/
+def sameUpToReversalB (F G : List Face) : Bool :=
+  G.length == F.length &&
+  (List.range F.length).all fun k => G.getD k [] == F.getD k [] || G.getD k [] == (F.getD k []).reverse
+
 /-- strict lexicographic order of index pairs -/
 def LexLt (a b : Edge) : Prop := a.1 < b.1 ∨ (a.1 = b.1 ∧ a.2 < b.2)
 
@@ -98,6 +114,43 @@ def cycleConvexCcw (verts : List (V3 α)) (face : Face) : Bool :=
   let m := rawNormal (pt 0) (pt 1) (pt 2)
   decide (3 ≤ n) && (List.range n).all fun k =>
     decide (lit 0 < V3.dot m (V3.cross (pt (k + 1) - pt k) (pt (k + 2) - pt (k + 1))))
+
+/-- **facet of the convex hull, by a supporting plane**: there is a plane `m·x + d = 0`, `m ≠ 0`,
+    with every input point on its non-positive side, such that the face consists of exactly the
+    input points lying on the plane, three of which are not collinear (so the face is
+    two-dimensional: a facet, not an edge or a vertex of the hull) -/
+def IsHullFacet (verts : List (V3 α)) (face : Face) : Prop :=
+  ∃ (m : V3 α) (d : α),
+    (∀ i, i < verts.length → V3.dot m (verts.getD i V3.zero) + d ≤ lit 0) ∧
+    (∀ i, i < verts.length → (i ∈ face ↔ V3.dot m (verts.getD i V3.zero) + d = lit 0)) ∧
+    (∃ a ∈ face, ∃ b ∈ face, ∃ c ∈ face,
+      ¬ (V3.cross (verts.getD b V3.zero - verts.getD a V3.zero) (verts.getD c V3.zero - verts.getD a V3.zero)
+          = V3.zero))
+
+/-- all indices of the face are valid vertex indices, the face has at least three of them, and
+    its first three vertices are not collinear (right-hand normal has a non-zero component) -/
+def faceWellFormed (verts : List (V3 α)) (face : Face) : Bool :=
+  let v0 := verts.getD (face.getD 0 0) V3.zero
+  let m := rawNormal v0 (verts.getD (face.getD 1 0) V3.zero) (verts.getD (face.getD 2 0) V3.zero)
+  decide (3 ≤ face.length) && face.all (fun i => decide (i < verts.length)) &&
+  (sgn m.x != 0 || sgn m.y != 0 || sgn m.z != 0)
+
+/-- every triangle of `S` appears counter-clockwise from the side opposite to `p` -/
+def outwardFromB (verts : List (V3 α)) (p : V3 α) (S : List Face) : Bool :=
+  S.all fun s =>
+    decide (lit 0 < V3.det3 (verts.getD (s.getD 0 0) V3.zero - p) (verts.getD (s.getD 1 0) V3.zero - p)
+      (verts.getD (s.getD 2 0) V3.zero - p))
+
+/-- **surface certificate** (evaluated exactly over ℚ by the driver on the implementation's own
+    faces): closed oriented 2-manifold edge pairing; every face well formed, a supporting facet
+    (`isSupportingFacet`: its plane has every other vertex strictly inside and exactly its own
+    vertices on it) and a strictly convex counter-clockwise cycle; every vertex used by a face;
+    and Euler's relation `V + F = E + 2` with `E` = half the number of face corners -/
+def surfaceCert (verts : List (V3 α)) (faces : List Face) : Bool :=
+  closedOrientedB faces &&
+  faces.all (fun f => faceWellFormed verts f && isSupportingFacet verts f && cycleConvexCcw verts f) &&
+  (List.range verts.length).all (fun i => faces.any fun f => f.contains i) &&
+  decide (2 * (verts.length + faces.length) = (faces.map List.length).sum + 4)
 
 /-- vector area `½ Σ v_i × v_{i+1}` of a closed cycle (independent of the base point) -/
 def vectorArea (verts : List (V3 α)) (cyc : Face) : V3 α :=
